@@ -1,6 +1,6 @@
 (* C27 — rate limiting groups responses into the documented streams.
    Statements only; every proof is [exact <lemma from Proofs/RrlKeyP.v>]. *)
-From QV Require Import Base.Res Base.Octets Model.Rrl Spec.RrlBucketS Spec.RrlStreamS Proofs.RrlP Proofs.RrlKeyP.
+From QV Require Import Base.Res Base.Octets Model.Rrl Spec.RrlBucketS Spec.RrlStreamS Proofs.RrlP Proofs.RrlKeyP Proofs.RrlFreshP.
 Local Open Scope N_scope.
 
 (* The setters accept exactly the prefix lengths 0..32 / 0..64, never panic, and store the
@@ -109,6 +109,22 @@ Theorem c27_pair : forall (hname : bytes -> N) (hkey : key -> N) p t c1 c2 k1 k2
                                else Send)).
 Proof. exact pair_limited_iff. Qed.
 
+(* The same on a freshly started server (Rrl::new's table): the only requirement left is that
+   neither key is the placeholder key the table is initialised with. *)
+Theorem c27_pair_fresh : forall (hname : bytes -> N) (hkey : key -> N) p t0 c1 c2 k1 k2 now1 now2 rnd1 rnd2,
+  wf_params p -> (forall cat, rate_of p cat = 1) -> p_window p = 1 ->
+  subject_to_rrl c1 = true -> subject_to_rrl c2 = true ->
+  key_of hname p c1 = Some k1 -> key_of hname p c2 = Some k2 ->
+  k1 <> init_key -> k2 <> init_key ->
+  now1 <= now2 < now1 + nanos_per_sec ->
+  exists t1 t2,
+    process_response hname hkey p (rrl_new p t0) c1 now1 rnd1 = Ok (t1, apply_action c1 Send) /\
+    process_response hname hkey p t1 c2 now2 rnd2
+    = Ok (t2, apply_action c2 (if key_eqb k1 k2
+                               then action_of_verdict (limited_verdict (p_slip p) rnd2)
+                               else Send)).
+Proof. exact pair_limited_iff_fresh. Qed.
+
 (* Non-vacuity: /24 and /56; 192.0.2.1 and ::ffff:192.0.2.200 asking for a.EXAMPLE / A.example
    (NOERROR) are one stream and get one key; 192.0.3.1 is another stream. *)
 Definition ex27_params : params := mkParams 1 1 1 1 1 (mask4 24) (mask6 56) 7.
@@ -156,3 +172,4 @@ Print Assumptions c27_same_key_same_stream.
 Print Assumptions c27_exempt.
 Print Assumptions c27_subject_is_limitable.
 Print Assumptions c27_pair.
+Print Assumptions c27_pair_fresh.
